@@ -282,9 +282,13 @@ def _partitions(rep, pool, driver, quick):
             rep.violation({'what': 'slice_list(range(%d), %d) = %r, model %r' % (n, c, impl.get('parts', impl), model['slice_list']),
                            'input': {'n': n, 'chunk': c}, 'python': 'from pyndl.ndl import slice_list; print(slice_list(list(range(%d)), %d))' % (n, c),
                            'theorem_or_stream': 'C02 sliceList_partition'})
-        if model['slice_list'] != model['omp_parts']:
-            rep.violation({'what': 'model partitioners disagree for (%d, %d)' % (n, c), 'input': {'n': n, 'chunk': c},
-                           'theorem_or_stream': 'C02 ompParts_partition'}, found_input=False)
+        # omp_parts: `ompParts32` (the 32-bit bounds the learner model `ndlCore` runs); omp_parts_unbounded: `ompParts`
+        # (the subject of ompParts_partition; equal for n + chunk < 2^32: ompParts32_eq)
+        if model['slice_list'] != model['omp_parts'] or model['omp_parts'] != model['omp_parts_unbounded']:
+            rep.violation({'what': 'model partitioners disagree for (%d, %d): sliceList %r, ompParts32 %r, ompParts %r' % (
+                               n, c, model['slice_list'], model['omp_parts'], model['omp_parts_unbounded']),
+                           'input': {'n': n, 'chunk': c},
+                           'theorem_or_stream': 'C02 ompParts_partition / ompParts32_eq'}, found_input=False)
     z = pool.map([{'op': 'slice_list', 'n': 5, 'chunk': 0}])[0]
     if z.get('err') != 'Raised:Value':
         rep.violation({'what': 'slice_list with len_sublists=0 should raise ValueError, got %r' % z,
